@@ -38,6 +38,8 @@ func main() {
 		code = cmdReplay(os.Args[2:])
 	case "list":
 		code = cmdList(os.Args[2:])
+	case "writes":
+		code = cmdWrites(os.Args[2:])
 	default:
 		fmt.Fprintln(os.Stderr, "unknown command")
 		code = 2
@@ -100,9 +102,31 @@ type unitResult struct {
 	Missing bool
 	Obls    []*Obligation
 	Seconds float64
+	Inv     map[int][]string
+}
+
+type runOpts struct {
+	storedInv map[int][]string // sweep: invariants inferred on the unchanged tree
+	only      map[string]bool  // if non-nil: solve only these obligation names (others are left unattempted)
 }
 
 func (g *Global) runUnit(u *Unit, timeout int, workers chan struct{}) *unitResult {
+	return g.runUnitOpts(u, timeout, workers, runOpts{})
+}
+
+func clausesFromTexts(m map[int][]string) map[int][]Clause {
+	out := map[int][]Clause{}
+	for ord, ts := range m {
+		for _, t := range ts {
+			if e, err := ParseExpr(t); err == nil {
+				out[ord] = append(out[ord], Clause{Text: t, E: e, Name: "auto:" + strings.ReplaceAll(t, " ", "")})
+			}
+		}
+	}
+	return out
+}
+
+func (g *Global) runUnitOpts(u *Unit, timeout int, workers chan struct{}, ro runOpts) *unitResult {
 	key := unitKey(u.Pkg, u.Func)
 	fn := g.fnByKey[key]
 	res := &unitResult{Unit: u, Fn: fn}
@@ -112,6 +136,13 @@ func (g *Global) runUnit(u *Unit, timeout int, workers chan struct{}) *unitResul
 	}
 	start := time.Now()
 	vc := NewFnVC(g, fn, u)
+	usedStored := false
+	if ro.storedInv != nil {
+		vc.houdiniByOrd = clausesFromTexts(ro.storedInv)
+		usedStored = true
+	} else if !u.Opts["noinfer"] {
+		vc.houdiniByOrd = g.inferInvariants(fn, u, workers)
+	}
 	func() {
 		defer func() {
 			if r := recover(); r != nil {
@@ -128,6 +159,10 @@ func (g *Global) runUnit(u *Unit, timeout int, workers chan struct{}) *unitResul
 	res.Obls = vc.obls
 	var wg sync.WaitGroup
 	for _, o := range vc.obls {
+		if ro.only != nil && !ro.only[o.Name] {
+			o.Status = "unattempted"
+			continue
+		}
 		wg.Add(1)
 		go func(o *Obligation) {
 			defer wg.Done()
@@ -165,6 +200,25 @@ func (g *Global) runUnit(u *Unit, timeout int, workers chan struct{}) *unitResul
 		}(o)
 	}
 	wg.Wait()
+	if usedStored {
+		// a stored invariant that is no longer inductive, or any other failure: re-infer from scratch before judging
+		redo := len(vc.outside) > 0
+		for _, o := range vc.obls {
+			if o.Status != "discharged" && o.Status != "unattempted" && !o.Cover {
+				redo = true
+			}
+		}
+		if redo {
+			ro.storedInv = nil
+			return g.runUnitOpts(u, timeout, workers, ro)
+		}
+	}
+	res.Inv = map[int][]string{}
+	for ord, cs := range vc.houdiniByOrd {
+		for _, c := range cs {
+			res.Inv[ord] = append(res.Inv[ord], c.Text)
+		}
+	}
 	res.Seconds = time.Since(start).Seconds()
 	return res
 }
@@ -252,8 +306,55 @@ type knownFinding struct {
 }
 
 type baseline struct {
-	Unproved []string `json:"unproved"`
-	Floor    int      `json:"floor"` // minimal number of discharged obligations expected
+	Unproved     []string `json:"unproved"`
+	Floor        int      `json:"floor"`                   // minimal number of discharged obligations expected
+	SweepClaimed []string `json:"sweep_claimed,omitempty"` // C07 sweep: safety obligations discharged on the unchanged tree
+	SweepInv     map[string]map[int][]string `json:"sweep_inv,omitempty"` // C07 sweep: bounds invariants inferred per function and loop
+}
+
+var oblClasses = []string{"/cover/", "/pre/", "/post/", "/inv-entry/", "/inv-preserve/", "/modifies/", "/arith/", "/index/", "/slice/", "/nil/",
+	"/assert-type/", "/nil-map/", "/div/", "/neg-make/", "/panic-call/", "/decreases/", "/unit/"}
+
+// oblFn extracts the function key from an obligation name.
+func oblFn(name string) string {
+	best := len(name)
+	for _, c := range oblClasses {
+		if i := strings.Index(name, c); i >= 0 && i < best {
+			best = i
+		}
+	}
+	return name[:best]
+}
+
+// sweepUnits: synthetic contract-free units for every in-repo function on the request/config path.
+func (g *Global) sweepUnits() []*Unit {
+	var us []*Unit
+	for key, fn := range g.fnByKey {
+		if fn.Pkg == nil || !g.inRepo(fn.Pkg.Pkg) || len(fn.Blocks) == 0 {
+			continue
+		}
+		p := fn.Pkg.Pkg.Path()
+		skip := false
+		for _, x := range []string{"/testing", "/examples", "/e2e", "/magefile", "/internal/auditlog/ocsf"} {
+			if strings.Contains(p, x) {
+				skip = true
+			}
+		}
+		if skip || fn.Name() == "init" || fn.Synthetic != "" {
+			continue
+		}
+		if _, has := g.C.Units[key]; has {
+			continue
+		}
+		pos := g.fset.Position(fn.Pos())
+		if strings.HasSuffix(pos.Filename, "_test.go") {
+			continue
+		}
+		i := strings.Index(key, "::")
+		us = append(us, &Unit{Pkg: key[:i], Func: key[i+2:], Props: []string{"C07"}, Loops: map[int]*LoopSpec{}, Opts: map[string]bool{"sweep": true}})
+	}
+	sort.Slice(us, func(i, j int) bool { return unitKey(us[i].Pkg, us[i].Func) < unitKey(us[j].Pkg, us[j].Func) })
+	return us
 }
 
 func readJSON(path string, v any) error {
@@ -286,6 +387,10 @@ func cmdCheck(args []string) int {
 		return 1
 	}
 	units := g.C.unitsForProp(*prop)
+	sweepClaim := map[string]bool{}
+	if *prop == "C07" {
+		units = append(units, g.sweepUnits()...)
+	}
 	if len(units) == 0 {
 		fmt.Fprintf(os.Stderr, "no contract units for property %s\n", *prop)
 		return 2
@@ -294,23 +399,66 @@ func cmdCheck(args []string) int {
 	if *tier == "thorough" {
 		timeout = 60
 	}
-	workers := make(chan struct{}, 8)
+	var bl baseline
+	readJSON(filepath.Join(verifDir, "baseline", *prop+".json"), &bl)
+	for _, n := range bl.SweepClaimed {
+		sweepClaim[n] = true
+	}
+	claimedByFn := map[string]int{}
+	for n := range sweepClaim {
+		if i := strings.Index(n, "/"); i >= 0 {
+			// function key ends before the first "/<class>/" segment: find it by matching known classes
+		}
+		claimedByFn[oblFn(n)]++
+	}
+	workers := make(chan struct{}, 10)
 	results := make([]*unitResult, len(units))
 	var wg sync.WaitGroup
-	gen := make(chan struct{}, 4)
+	gen := make(chan struct{}, 6)
+	skipped := 0
 	for i, u := range units {
+		if u.Opts["sweep"] && *tier == "quick" && !*updateBaseline {
+			if claimedByFn[unitKey(u.Pkg, u.Func)] == 0 {
+				skipped++
+				continue
+			}
+		}
 		wg.Add(1)
 		go func(i int, u *Unit) {
 			defer wg.Done()
 			gen <- struct{}{}
 			defer func() { <-gen }()
-			results[i] = g.runUnit(u, timeout, workers)
+			ro := runOpts{}
+			tmo := timeout
+			if u.Opts["sweep"] {
+				if tmo > 5 && *tier == "quick" {
+					tmo = 5
+				}
+				if !*updateBaseline {
+					if inv, ok := bl.SweepInv[unitKey(u.Pkg, u.Func)]; ok {
+						ro.storedInv = inv
+					}
+					if *tier == "quick" {
+						ro.only = sweepClaim
+					}
+				}
+			}
+			results[i] = g.runUnitOpts(u, tmo, workers, ro)
 		}(i, u)
 	}
 	wg.Wait()
-
-	var bl baseline
-	readJSON(filepath.Join(verifDir, "baseline", *prop+".json"), &bl)
+	{
+		var rs []*unitResult
+		for _, r := range results {
+			if r != nil {
+				rs = append(rs, r)
+			}
+		}
+		results = rs
+	}
+	sweepInv := map[string]map[int][]string{}
+	var sweepDischarged []string
+	sweepNew := 0
 	unprovedOK := map[string]bool{}
 	for _, n := range bl.Unproved {
 		unprovedOK[n] = true
@@ -349,6 +497,44 @@ func cmdCheck(args []string) int {
 		}
 		for t := range g.used[key] {
 			trusted[t] = true
+		}
+		if r.Unit.Opts["sweep"] {
+			// zero-annotation sweep: only obligations claimed in the committed baseline can raise an alarm
+			if len(r.VC.outside) > 0 {
+				continue
+			}
+			if len(r.Inv) > 0 {
+				sweepInv[key] = r.Inv
+			}
+			for _, o := range r.Obls {
+				solverSecs += o.Result.Seconds
+				if o.Cover || o.Status == "unattempted" {
+					continue
+				}
+				if o.Status == "discharged" {
+					sweepDischarged = append(sweepDischarged, o.Name)
+					if sweepClaim[o.Name] || *updateBaseline {
+						total++
+						discharged++
+						perSolver[o.Result.Solver]++
+					} else {
+						sweepNew++
+					}
+					continue
+				}
+				if sweepClaim[o.Name] {
+					total++
+					path := writeObligationReplay(g, *prop, o)
+					line := fmt.Sprintf("VIOLATION property=%s replay=%s", *prop, path)
+					if !replayConfirms(g, o, path) {
+						line += " no-failing-input-found"
+					}
+					violations = append(violations, line)
+				} else {
+					unproved = append(unproved, o.Name)
+				}
+			}
+			continue
 		}
 		if len(r.VC.outside) > 0 {
 			name := key + "/unit/outside-subset"
@@ -403,7 +589,8 @@ func cmdCheck(args []string) int {
 	}
 	sort.Strings(newUnproved)
 	if *updateBaseline {
-		nb := baseline{Unproved: newUnproved, Floor: discharged}
+		sort.Strings(sweepDischarged)
+		nb := baseline{Unproved: newUnproved, Floor: discharged * 9 / 10, SweepClaimed: sweepDischarged, SweepInv: sweepInv}
 		// known findings are not part of the unproved baseline
 		var keep []string
 		for _, n := range nb.Unproved {
@@ -457,6 +644,7 @@ func cmdCheck(args []string) int {
 			"vacuity_covers":           covers,
 			"samples":                  samples,
 			"known_findings":           len(seenKnown),
+			"sweep_new_discharged_not_claimed": sweepNew,
 		},
 		"assumptions": assumptions,
 		"wall_s":      time.Since(start).Seconds(),
@@ -509,6 +697,7 @@ func cmdUnit(args []string) int {
 	fs := flag.NewFlagSet("unit", flag.ExitOnError)
 	timeout := fs.Int("t", 10, "timeout")
 	dump := fs.String("dump", "", "dump the SMT script of the obligation whose name contains this")
+	sweep := fs.Bool("sweep", false, "match contract-free functions (safety sweep units)")
 	fs.Parse(args)
 	g, err := loadAll()
 	if err != nil {
@@ -522,6 +711,13 @@ func cmdUnit(args []string) int {
 		for k, u := range g.C.Units {
 			if !u.Trusted && strings.Contains(k, pat) {
 				matched = append(matched, u)
+			}
+		}
+		if *sweep {
+			for _, u := range g.sweepUnits() {
+				if strings.Contains(unitKey(u.Pkg, u.Func), pat) {
+					matched = append(matched, u)
+				}
 			}
 		}
 		sort.Slice(matched, func(i, j int) bool { return matched[i].Func < matched[j].Func })
@@ -583,6 +779,87 @@ func cmdList(args []string) int {
 	sort.Strings(ks)
 	for _, k := range ks {
 		fmt.Println(k)
+	}
+	return 0
+}
+
+func cmdWrites(args []string) int {
+	g, err := loadAll()
+	if err != nil {
+		fmt.Fprintln(os.Stderr, err)
+		return 2
+	}
+	if len(args) == 3 && args[0] == "why" {
+		// why <fn-suffix> <key-substring>: print a call chain to a function that writes the key
+		for k, fn := range g.fnByKey {
+			if !strings.HasSuffix(k, args[1]) {
+				continue
+			}
+			cg := g.callGraph()
+			type item struct {
+				f    *ssa.Function
+				prev *item
+			}
+			seen := map[*ssa.Function]bool{}
+			queue := []*item{{fn, nil}}
+			for len(queue) > 0 {
+				it := queue[0]
+				queue = queue[1:]
+				if seen[it.f] {
+					continue
+				}
+				seen[it.f] = true
+				if u := g.unitFor(it.f); u != nil && it.f != fn && (u.HasMod || u.Trusted || u.Pure) {
+					ws := &writeSet{keys: map[string]bool{}}
+					g.unitModKeys(u, it.f, ws)
+					for w := range ws.keys {
+						if strings.Contains(w, args[2]) {
+							fmt.Println("contract of", it.f.String(), "modifies", w, "via:")
+							for x := it; x != nil; x = x.prev {
+								fmt.Println("   ", x.f.String())
+							}
+							return 0
+						}
+					}
+					continue
+				}
+				if g.isPureLib(it.f) && it.f != fn {
+					continue
+				}
+				dw := g.directWrites(it.f)
+				hit := ""
+				for w := range dw.keys {
+					if strings.Contains(w, args[2]) {
+						hit = w
+					}
+				}
+				if hit != "" {
+					fmt.Println("writes", hit, "via:")
+					for x := it; x != nil; x = x.prev {
+						fmt.Println("   ", x.f.String())
+					}
+					return 0
+				}
+				for _, t := range g.targetsLocked(cg, it.f) {
+					queue = append(queue, &item{t, it})
+				}
+			}
+		}
+		return 0
+	}
+	for _, pat := range args {
+		for k, fn := range g.fnByKey {
+			if strings.HasSuffix(k, pat) {
+				start := time.Now()
+				ws, all := g.fnWrites(fn)
+				fmt.Printf("== %s all=%v (%d keys, %.1fs)\n", k, all, len(ws), time.Since(start).Seconds())
+				for _, w := range sortedKeys(ws) {
+					if strings.Contains(w, "corazawaf") || strings.Contains(w, "$") || strings.HasPrefix(w, "gh!") {
+						fmt.Println("   ", w)
+					}
+				}
+			}
+		}
 	}
 	return 0
 }
